@@ -226,3 +226,107 @@ CLAIMED['C04'] = (
     NOTE_COMMON + 'PARTIAL: don\'t-care extraction, trivial-output shortcut, splice and driver loop are not proved (set-iteration-order dependent '
     'code, not modelled as a whole). mockturtle and pysat are shims. One open known finding (dead logic).',
     'Lean 4 proof (bit-level lemmas for the pattern simulation, C06 soundness) + correspondence of the pattern primitives + search oracle on the real algorithm')
+# ---- refreshed claim texts (as built) ----
+def _upd(pid, desc, notes):
+    ref, _, _, tech = CLAIMED[pid]
+    CLAIMED[pid] = (ref, desc, NOTE_COMMON + notes, tech)
+
+_upd('C01',
+     'Theorems for all circuits and total assignments: every gate type at every arity denotes the fixed Boolean function bfun (fold '
+     'induction over the regenerated tables); the denotation exists, is unique and independent of storage order; evaluate_full_circuit '
+     'returns it on every gate and never raises; evaluate_circuit terminates, returns, and gives it on every gate it evaluates; evaluate, '
+     'evaluate_at, get_truth_table, get_gates_truth_table are the stated projections; every other interpreter of gate types (CNF templates, '
+     'the two regenerated truth-table-code tables, pattern simulation, bench conversion) denotes the same bfun. All entry points are compared '
+     'with the code on every run; gates built from truth-table codes are checked for all 16 codes.',
+     'The model of the evaluators is tied to the code by correspondence.')
+_upd('C02',
+     'Invariant by induction over operation histories (no bound): WFS (operands/outputs exist, users index = inverse operand multiset, input '
+     'list = INPUT gates each once, acyclic by a rank, block labels exist) holds for the empty circuit and is preserved by add/emplace gate, '
+     'add_inputs, mark/set/order inputs and outputs, replace_inputs, make/delete block, remove_gate, remove_block, rename_gate, copy, '
+     'make_block_from_slice, into_bench and connect_circuit in BOTH directions with all wrappers (right direction via the invariant of the '
+     'circuit with recomputed input list and an explicit rank function); after any such history both topological iterations yield every gate '
+     'once in dependency order. replace_subcircuit is modelled one-to-one and compared field by field after every call; every state the code '
+     'produces goes through the Lean checker checkWFU.',
+     'replace_subcircuit invariant lemma not proved (partial). "copy equals original / shares no state": correspondence-only.')
+_upd('C03',
+     CLAIMED['C03'][1] + ' Total correctness: every pass, pipeline and cleanup returns on well-formed circuits.',
+     '"Argument not modified" is correspondence-only.')
+_upd('C08',
+     'Through the program logic of C07 (frame theorem for every mode): add_mul (DEFAULT), add_mul_alter, add_mul_dadda (column-value '
+     'invariant through all reduction stages), both Karatsuba variants (induction over the recursion for any base multiplier meeting a spec; '
+     'thresholds, padding, non-borrowing subtraction), add_mul_pow2_m1 (chunk invariant of add_sum_pow2_m1, column-loop potential, '
+     'anti-diagonal re-summation) and both squarers (AND triangle, square as anti-diagonal sum, recursive split) return exactly a*b resp. '
+     'x^2, with the stated result widths (except DEFAULT, whose width is checked on the real generator). All modes are modelled one-to-one and compared gate for gate '
+     '(uuid pinned) on hosts built through the public API; the search checks values and widths on the real generators.',
+     'add_mul_wallace value theorem and the width of DEFAULT are not proved (partial; gate-exact correspondence + exhaustive/dense oracle).')
+_upd('C09',
+     'Through the program logic of C07: subtractor, subtract-with-compare (unequal widths, both endiannesses, borrow <=> a<b), equality '
+     '(width>=1), plus-one (any out_len), if-then-else, pairwise gadgets, outputs untouched without add_outputs, add_div_mod (restoring '
+     'division invariant, OR-prefixes, zero-divisor masking: floor(a/b), a mod b, (0,0) for b=0) and add_sqrt (digit-by-digit invariant: '
+     'R^2 <= a < (R+1)^2 on ceil(n/2) bits). All generators are modelled one-to-one and compared gate for gate; the search evaluates the '
+     'real results on all assignments.',
+     'Width 0 of add_equal is outside the stated domain. Proofs/GenSqrt.lean uses Mathlib\'s ring tactic (no extra axioms).')
+_upd('C07',
+     CLAIMED['C07'][1] + ' add_sum_pow2_m1: the returned columns carry exactly the number of true inputs and the weight-1 column is a single bit.',
+     'Gate-count bounds: search oracle on the real generators only (partial). Fuel sufficiency by correspondence.')
+_upd('C10',
+     'Theorems (all circuits, connector choices, name/prefix options, all assignments) for connect_circuit in BOTH directions and its five '
+     'wrappers: one renaming of the attached circuit\'s labels turns every valuation of the result into a valuation of the attached circuit; '
+     'left: base gates keep their values; right: the fed inputs become the connector gates and every other base gate is kept, so the result '
+     'satisfies both circuits\' equations; exact inputs/outputs lists; the recorded block and survival of older blocks; extracting the named '
+     'block (Block.into_circuit, modelled) gives a circuit with the attached circuit\'s interface whose valuations are valuations of the attached '
+     'circuit; total correctness: with the documented preconditions connect_circuit returns. Everything is modelled one-to-one and compared field by field; '
+     'the search checks composed evaluation, interface, checkWFU and block extraction on the real code.',
+     '"Attached circuit not modified" and "into_circuit returns" are correspondence-only.')
+_upd('C12',
+     CLAIMED['C12'][1] + ' Also proved: is_symmetric(_at) = depends only on the weight, find_negations_to_make_symmetric sound and complete, '
+     'PyFunction.is_monotone, truth-table ordering and TruthTable\'s index-based equal-to-input, define() (keeps defined values, fills don\'t-cares).',
+     'Integer wrappers\' bit order (bin() digit strings): exhaustive correspondence for small widths, not proved (partial).')
+_upd('C13',
+     'Theorems: the comparison stage for any m>=1 is True exactly when some pair differs; end-to-end: on well-formed operands of equal shape '
+     'with non-empty block names, whenever build_miter returns, the miter has the left inputs in order and one output that is True exactly on '
+     'the inputs where the output vectors differ (miter_correct, via the left-connection theorems); mismatched shapes give '
+     'MiterDifferentShapesError. build_miter is modelled as the code composes it and compared exactly; the implementation\'s miter is '
+     'evaluated on all assignments and its satisfiability checked through the C05 path.',
+     'That build_miter returns on operands of equal shape, and "operands unmodified", are decided by the correspondence (partial correctness).')
+_upd('C14',
+     CLAIMED['C14'][1] + ' into_bench also keeps the whole C02 invariant (users-count framework, rank constructions).',
+     'Partial correctness (if into_bench returns).')
+_upd('C15',
+     'Theorems for all circuits/arities/assignments: every operator of the regenerated tables is monotone and sound at every arity; '
+     'evaluate_full_circuit never raises on well-formed circuits and is sound, monotone and total; evaluate_circuit (explicit stack) terminates, '
+     'returns, is sound at every gate, and — because the set of gates it visits depends only on which labels are defined — monotone and total at '
+     'every gate it evaluates. The model is re-tied to the code on every run (3^n partial assignments on 3 entry points; the caller\'s assignment '
+     'must come back untouched).',
+     'The tie between the model\'s evaluators and the Python methods is by correspondence.')
+_upd('C16',
+     'Theorems (all values, no bound): bit/byte packing round trips; the binary dictionary reader inverts the writer and rejects strict '
+     'prefixes/trailing bytes; the circuit-level round trip decode(encode c) ~ c for every well-formed circuit the encoder accepts, whatever '
+     'its gate storage order (dependency-order enumeration, token stream, decoder), incl. same function. The codec model is compared byte for '
+     'byte with the code on every run (conforming and non-conforming circuits, corrupted and truncated streams).',
+     'Which circuits the encoder accepts and the error classes for malformed bytes are decided by correspondence. Keys are byte strings in the model.')
+_upd('C18',
+     'Theorems: RemoveRedundantGates returns exactly the gates reachable from the outputs (plus inputs unless removal requested) and is '
+     'idempotent; after MDG+RRG no two gates have the same signature; after MEG+RRG no two non-input gates have the same truth table; after '
+     'MUO+RRG no double negation / no buffer operand or output (under the stated hypotheses on unary gates); apply_transformers, the pipe '
+     'operator and cleanup equal sequencing of the linearised constituent passes; every pass and pipeline returns on well-formed circuits. '
+     'Passes and pipeline machinery are modelled one-to-one and compared exactly; the search checks the postconditions and pipeline=sequencing '
+     'on the real code, incl. user-defined passes with nested declared dependencies.',
+     'User-defined passes with dependencies are covered by the search oracle, not by the model (built-in passes only).')
+_upd('C19',
+     'Theorems: replace_inputs yields exactly the cofactor over the remaining inputs in order and keeps the invariant; remove_gate succeeds '
+     'only for an existing gate without users and removes it from gate map, outputs and blocks, with the exact error class otherwise; '
+     'rename_gate yields the renamed circuit (every reference points at the new label), keeps the invariant and every truth table. '
+     'replace_subcircuit is modelled one-to-one and compared with the code on many cut-bounded slices with truth-table and checkWFU oracles.',
+     'replace_subcircuit theorem not proved (partial).')
+_upd('C20',
+     'Theorems: Kahn in both directions yields every gate once in dependency order and never raises on well-formed circuits; DFS/BFS yield '
+     'exactly the reachable gates, each once, and hand exactly the unreached gates to the unvisited hook (storage or topological order); DFS '
+     'hooks are balanced, exit in post-order (both directions), enter before exit; the cycle check is silent exactly on circuits without a '
+     'cycle reachable from the outputs; the traversal loop terminates and never raises on well-formed circuits. Event logs of the real '
+     'traversals (all hooks) and the cycle check are compared with the model on DAGs and cyclic netlists on every run.',
+     'The tie between the model\'s event log and the hooks the Python generator calls is by correspondence.')
+_upd('C11',
+     CLAIMED['C11'][1] + ' Document level: parse(format(c)) has the same inputs, outputs and the same gates (as a permutation) for every '
+     'well-formed printable circuit.',
+     'Layout independence for arbitrary hand-written text is exercised by exact parser correspondence and the layout search, not proved (partial).')
